@@ -286,6 +286,21 @@ func TestC05(t *testing.T) {
 			}
 		}
 	}
+	// thorough tier, one shard: a handler call of 10.5 s with the master's packets waiting behind it (the
+	// reader holds one for all that time), then the stream runs on to the master's EOF; whatever the library
+	// does about a consumer that slow (warn, measure), afterwards everything must end as usual
+	if thorough() && envShard == 2%envNShards {
+		c := &StopCase{H: seqHistory([]int{0, 1, 0, 4, 0}, 3), Fault: Fault{Kind: "none"}, LongCallMs: 10500}
+		journal("C05", "c05", c)
+		obs, sig, err := checkC05(c)
+		rec.Case(true, c, append(stopClasses(c, obs), "handler-call-of-10.5s-with-packets-waiting")...)
+		if err != nil {
+			rec.Violation("c05", c, sig, err)
+			if !knownSig(sig) {
+				t.Errorf("C05 violation: %v", err)
+			}
+		}
+	}
 	var kinds []string
 	for _, k := range stopKinds {
 		if k != "cancel_dial" {
